@@ -161,6 +161,9 @@ func PrepareC09(ctx *Ctx) (*Prepared, error) {
 			if ctx.Tier == "thorough" {
 				return !p.Deep || p.Leaf == "int32" || p.Leaf == "string"
 			}
+			if p.Ctor == "T[][]" && p.Context == "struct" && (p.Leaf == "Fixed" || p.Leaf == "StrS" || p.Leaf == "Msg" || p.Leaf == "string") {
+				return true // nested arrays of records: loop-variable handling differs between option sets
+			}
 			return !p.Deep && (p.Context == "struct" || p.Context == "message" || p.Leaf == "int32" || p.Leaf == "Msg")
 		}})
 	if p != nil {
